@@ -1300,7 +1300,11 @@ func main() {
 	}
 	x := &runner{o: o, r: r, m: m, reported: map[string]bool{}, deadline: time.Now().Add(budget)}
 
+	only := os.Getenv("C16_ONLY") // debugging aid: run the named campaigns only
 	timed := func(name string, f func()) {
+		if only != "" && !strings.Contains(","+only+",", ","+name+",") {
+			return
+		}
 		t0 := time.Now()
 		f()
 		fmt.Fprintf(os.Stderr, "c16: campaign %s took %s\n", name, time.Since(t0).Round(time.Millisecond))
@@ -1325,6 +1329,7 @@ func main() {
 	}
 	timed("grpc", func() { pbCampaign(x) })
 	timed("server", func() { glueCampaign(x) })
+	timed("wired", func() { wiredCampaign(x) })
 
 	r.Finish()
 }
